@@ -34,7 +34,20 @@ func GenScope(t *Tape) *Scenario {
 		cfg.ExcludeString = append(cfg.ExcludeString, c.Pick("/private/", "secret", "?nocrawl"))
 	}
 	if c.Chance(1, 3) {
-		cfg.ExclusionRegex = append(cfg.ExclusionRegex, c.Pick(`\.pdf$`, `/tmp[0-9]+/`, `^http://[^/]*\.bad\.example/`))
+		cfg.ExclusionRegex = append(cfg.ExclusionRegex, c.Pick(`\.pdf$`, `/tmp[0-9]+/`, `^http://[^/]*\.bad\.example/`, `[?&]action=(edit|delete)`, `[?&]action=(edit|delete)`))
+		if c.Chance(1, 3) {
+			cfg.ExclusionRegex = append(cfg.ExclusionRegex, c.Pick(`\.pdf$`, `/tmp[0-9]+/`, `[?&]sid=[0-9a-f]+`))
+		}
+		if c.Chance(1, 8) {
+			// a legal but very long line in the middle of the exclusion file (longer than a default line scanner accepts):
+			// either the crawl refuses to start or every line counts, never a silently shortened list
+			long := "^http://never\\.example/(" + strings.Repeat("a1|", 23000) + "z)$"
+			cfg.ExclusionRegex = append([]string{cfg.ExclusionRegex[0], long}, cfg.ExclusionRegex[1:]...)
+			if len(cfg.ExclusionRegex) == 2 {
+				cfg.ExclusionRegex = append(cfg.ExclusionRegex, `/img/`)
+			}
+			g.Sc.Extra = map[string]string{"config_may_refuse": "1"}
+		}
 	}
 	switch c.N(4) {
 	case 0:
@@ -66,7 +79,9 @@ func GenScope(t *Tape) *Scenario {
 		}
 	}
 	paths := func() string {
-		switch c.N(8) {
+		switch c.N(10) {
+		case 8, 9: // the same page under several queries (a filter on the query must be judged per URL, not per page)
+			return "/wiki/" + c.Pick("w1", "w2") + ".php?title=T&action=" + c.Pick("view", "edit", "delete", "history", "view") + c.Pick("", "&sid=4f2a")
 		case 0:
 			return "/keep/" + c.Name("k") + ".png"
 		case 1:
@@ -129,8 +144,24 @@ func GenScope(t *Tape) *Scenario {
 			var sb strings.Builder
 			sb.WriteString("<html><head>")
 			n := 2 + c.N(6)
+			var queued []string
+			if len(cfg.ExclusionRegex) > 0 && c.Chance(1, 2) {
+				// one page under two queries, the harmless one first
+				h := inHosts[c.N(len(inHosts))]
+				w := "/wiki/" + c.Pick("w1", "w2") + ".php?title=T&action="
+				p1, p2 := w+"view", w+c.Pick("edit", "delete", "history&sid=4f2a")
+				addTarget(h, p1)
+				addTarget(h, p2)
+				queued = []string{"http://" + h + p1, "http://" + h + p2}
+				n += 2
+			}
 			for j := 0; j < n; j++ {
-				l := link()
+				l := ""
+				if len(queued) > 0 {
+					l, queued = queued[0], queued[1:]
+				} else {
+					l = link()
+				}
 				switch c.N(4) {
 				case 0:
 					sb.WriteString(`<link rel="stylesheet" href="` + l + `">`)
